@@ -79,7 +79,7 @@ func c08janScripts() [][]janOp {
 }
 
 func c08janWorker(arg string, def, g int) {
-	c := &c20ctx{out: newWorkerOut(), st: &wStats{Shard: arg, MinBound: -1, Extra: map[string]int{}}, states: map[string]struct{}{}}
+	c := &c20ctx{check: "C08", out: newWorkerOut(), st: &wStats{Shard: arg, MinBound: -1, Extra: map[string]int{}}, states: map[string]struct{}{}}
 	c.deadline = time.Now().Add(3 * time.Minute)
 	c.budget = 40000
 	bound := 2
@@ -285,7 +285,7 @@ func (e *janEnt) String() string {
 // finaliser has run, the janitor goroutine exits and the sender returns, in every interleaving with
 // pending ticks.
 func c08finalizerWorker(arg string) {
-	c := &c20ctx{out: newWorkerOut(), st: &wStats{Shard: arg, MinBound: -1, Extra: map[string]int{}}, states: map[string]struct{}{}}
+	c := &c20ctx{check: "C08", out: newWorkerOut(), st: &wStats{Shard: arg, MinBound: -1, Extra: map[string]int{}}, states: map[string]struct{}{}}
 	c.deadline = time.Now().Add(3 * time.Minute)
 	c.budget = 100000
 	var fired, janitorDone bool
